@@ -291,6 +291,76 @@ theorem C17_removeNode_spec {g : Graph} (h : GInv g) (u : Nat) (hu : u < g.nodes
     | cons a t ih => intro g'; simp only [List.foldl_cons]; rw [ih]; rfl
   rw [this]; rfl
 
+/-! ## completed operations are removed -/
+
+theorem removeIf_mono (g : Graph) (nid : Nat) (cond : Bool) (k : Nat) (h : g.removed.getD k true = true) :
+    (removeIf g nid cond).removed.getD k true = true := by
+  unfold removeIf
+  split
+  · rename_i hc
+    simp only [Bool.and_eq_true, Bool.not_eq_true'] at hc
+    have hlt : nid < g.removed.length := by
+      apply Classical.byContradiction; intro hn
+      have : g.removed[nid]? = none := List.getElem?_eq_none (by omega)
+      simp [List.getD_eq_getElem?_getD, this] at hc
+    exact (C17_removed_monotone g nid hlt).1 k h
+  · exact h
+
+/-- `removeIf g nid true` leaves `nid` removed (or out of range) -/
+theorem removeIf_sets (g : Graph) (nid : Nat) : (removeIf g nid true).removed.getD nid true = true := by
+  unfold removeIf
+  split
+  · rename_i hc
+    simp only [Bool.and_eq_true, Bool.not_eq_true', true_and] at hc
+    have hlt : nid < g.removed.length := by
+      apply Classical.byContradiction; intro hn
+      have : g.removed[nid]? = none := List.getElem?_eq_none (by omega)
+      simp [List.getD_eq_getElem?_getD, this] at hc
+    exact (C17_removed_monotone g nid hlt).2
+  · rename_i hc
+    cases h : g.removed.getD nid true with
+    | true => rfl
+    | false => exact absurd (by rw [h]; rfl) hc
+
+theorem foldl_removeIf_mono {α} (f : Graph → α → Nat) (cnd : Graph → α → Bool) : ∀ (l : List α) (g : Graph) (k : Nat),
+    g.removed.getD k true = true → (l.foldl (fun g a => removeIf g (f g a) (cnd g a)) g).removed.getD k true = true
+  | [], _, _, h => h
+  | a :: t, g, k, h => by
+    simp only [List.foldl_cons]
+    exact foldl_removeIf_mono f cnd t _ k (removeIf_mono g _ _ k h)
+
+/-- **C17 (completed operations are removed).** After every update of the residual graph updater, the node of every
+completed operation is removed (and stays removed: `C17_removed_monotone`). -/
+theorem C17_completed_removed (c : Cfg) (s : State) (heap : List FObs) (o : FObs) (r : OpRef)
+    (hr : r ∈ completedPure c s) :
+    (residualUpdate c s heap o).removed.getD (opId c.I r) true = true := by
+  unfold residualUpdate
+  simp only
+  -- after the first stage the node is removed
+  have h1 : (removeCompletedOps c.I o.graph (completedPure c s)).removed.getD (opId c.I r) true = true := by
+    unfold removeCompletedOps
+    generalize completedPure c s = refs at hr
+    generalize o.graph = g
+    induction refs generalizing g with
+    | nil => cases hr
+    | cons a t ih =>
+      simp only [List.foldl_cons]
+      rcases List.mem_cons.1 hr with rfl | ht
+      · exact foldl_removeIf_mono (fun _ x => opId c.I x) (fun _ _ => true) t _ _ (removeIf_sets g _)
+      · exact ih ht _
+  -- the later stages only remove more
+  have hfl : ∀ (g : Graph) (flags : List Int) (kind : Nat → NodeKind), g.removed.getD (opId c.I r) true = true →
+      (removeFlagged g flags kind).removed.getD (opId c.I r) true = true := by
+    intro g flags kind hg
+    unfold removeFlagged
+    exact foldl_removeIf_mono (fun g (fm : Int × Nat) => nodeIdOf g (kind fm.2)) (fun _ fm => fm.1 == 1) _ g _ hg
+  have hite : ∀ (cnd : Bool) (a b : Graph), a.removed.getD (opId c.I r) true = true →
+      b.removed.getD (opId c.I r) true = true → (if cnd = true then a else b).removed.getD (opId c.I r) true = true := by
+    intro cnd a b ha hb; split <;> assumption
+  apply hite
+  · exact hfl _ _ _ (hite _ _ _ (hfl _ _ _ h1) h1)
+  · exact hite _ _ _ (hfl _ _ _ h1) h1
+
 /-! non-vacuity -/
 set_option maxRecDepth 100000 in
 example :
